@@ -447,8 +447,6 @@ def check(ctx, res) -> None:
     _check_body(ctx, res)
     _dependency_by_path_rule(ctx, res)
     _closure_grows_with_dependents_only_rule(ctx, res)
-
-
 def _closure_grows_with_dependents_only_rule(ctx, res) -> None:
     """R11.14: the dependency closure of a selective undo is built by one pass over the later changes: a change is taken along
     when it touches a resource of the closure SO FAR, and only then do its own resources join the closure.  The statement
